@@ -4,7 +4,7 @@ import ast
 from ..core.model import AnchorError
 from ..core.cfg import walk_shallow, cfg_of
 from ..core.facts import U, atoms_of
-from ..engine import fn_name, kwarg, local_defs, returns_of, stmts_in
+from ..engine import fn_name, kwarg, local_defs, returns_of, stmts_in, vars_assigned_from, var_from_call
 from . import c02
 
 EXPLANATION = (
@@ -77,8 +77,10 @@ def s2(ctx, rep):
     rep.put(not bad and len(ws) >= 3, "S2", "who_may_write", "SimulatorState.event_heap is touched only by SimulatorState", c, None, f"{len(ws)} sites",
             ", ".join(g.short for g, n, k in bad))
     nx = c.methods["next_until"]
-    ok = any(isinstance(x, ast.Call) and fn_name(x) == "heappop" for x in walk_shallow(nx.node)) and \
-        any(("le", "top_time", "time_until") in atoms_of(n.test, True) for n in walk_shallow(nx.node) if isinstance(n, ast.If))
+    tops = [U(x.targets[0].elts[0]) for x in walk_shallow(nx.node) if isinstance(x, ast.Assign) and isinstance(x.targets[0], ast.Tuple)
+            and U(x.value) == "self.event_heap[0]"]
+    ok = len(tops) == 1 and any(isinstance(x, ast.Call) and fn_name(x) == "heappop" for x in walk_shallow(nx.node)) and \
+        any(("le", tops[0], "time_until") in atoms_of(n.test, True) for n in walk_shallow(nx.node) if isinstance(n, ast.If))
     rep.put(ok, "S2", "guarded_by", "SimulatorState.next_until pops the heap top only if its time is due", nx, None, "")
 
 
@@ -123,20 +125,25 @@ def s4(ctx, rep):
     P = ctx.P
     f = P.func("syne_tune.blackbox_repository.utils.metrics_for_configuration")
     app = [x for x in walk_shallow(f.node) if isinstance(x, ast.Call) and fn_name(x) == "append"]
+    ov = var_from_call(f, "objective_function")
+    fv = vars_assigned_from(f, lambda v: isinstance(v, ast.Attribute) and v.attr == "fidelity_values")
+    if ov is None or len(fv) != 1:
+        raise AnchorError("metrics_for_configuration: table query / fidelity values not found")
     ok = len(app) == 1
     if ok:
         v = app[0].args[0]
         ds = [d for d in local_defs(f, U(v)) if not isinstance(d, tuple)]
         ok = len(ds) == 1 and isinstance(ds[0], ast.Call) and fn_name(ds[0]) == "dict" and isinstance(ds[0].args[0], ast.Call) \
-            and fn_name(ds[0].args[0]) == "zip" and "objectives_names" in U(ds[0].args[0].args[0]) and "objective_values[" in U(ds[0].args[0].args[1])
+            and fn_name(ds[0].args[0]) == "zip" and "objectives_names" in U(ds[0].args[0].args[0]) and ov is not None \
+            and isinstance(ds[0].args[0].args[1], ast.Subscript) and U(ds[0].args[0].args[1].value) == ov
     rep.put(ok, "S4", "taint", "metrics_for_configuration: each level is a fresh dict(zip(names, table row))", f, None, "",
             "reported results are not fresh copies of the table row: later in-place corrections would alter the table")
     idx = None
     for x in walk_shallow(f.node):
-        if isinstance(x, ast.For) and isinstance(x.iter, ast.Call) and fn_name(x.iter) == "enumerate" and "all_fidelities" in U(x.iter):
+        if isinstance(x, ast.For) and isinstance(x.iter, ast.Call) and fn_name(x.iter) == "enumerate" and U(x.iter.args[0]) == fv[0]:
             idx = U(x.target.elts[0])
             val = U(x.target.elts[1])
-            ok2 = f"objective_values[{idx}]" in U(x) and any(isinstance(s, ast.Assign) and U(s.targets[0]).endswith("[resource_attr]") and U(s.value) == val
+            ok2 = f"{ov}[{idx}]" in U(x) and any(isinstance(s, ast.Assign) and U(s.targets[0]).endswith("[resource_attr]") and U(s.value) == val
                                                                for s in stmts_in(x.body))
             rep.put(ok2, "S4", "agreement", "metrics_for_configuration: row k of the table is reported with fidelity value k (same index)", f, x, "")
     if idx is None:
@@ -152,9 +159,13 @@ def s4(ctx, rep):
     for x in walk_shallow(g.node):
         if isinstance(x, (ast.Assign, ast.AugAssign)):
             for t in (x.targets if isinstance(x, ast.Assign) else [x.target]):
-                if isinstance(t, ast.Subscript) and isinstance(t.value, (ast.Name, ast.Subscript)) and ("result" in U(t.value)):
+                root = t
+                while isinstance(root, ast.Subscript):
+                    root = root.value
+                if isinstance(t, ast.Subscript) and isinstance(root, ast.Name) and root.id != "self":
                     stores.append((t, x))
-    ok = bool(stores) and all(U(t.slice) in ("self.elapsed_time_attr", "et_attr") for t, x in stores)
+    et = ["self.elapsed_time_attr"] + vars_assigned_from(g, lambda v: U(v) == "self.elapsed_time_attr")
+    ok = bool(stores) and all(U(t.slice) in et for t, x in stores)
     rep.put(ok, "S4", "taint", "_BlackboxSimulatorBackend: in-place corrections touch only the elapsed-time entry", g, None,
             f"{len(stores)} in-place stores", "a metric value taken from the table is overwritten in place")
 
